@@ -258,10 +258,23 @@ func BuildSelect(query *Query, slct *sqlparser.Select) error {
 }
 
 func BuildUnion(query *Query, expr *sqlparser.Union) error {
-	leftStatement := expr.Left.(*sqlparser.Select)
-	leftStatement.With = expr.With
-	rightStatement := expr.Right.(*sqlparser.Select)
-	rightStatement.With = expr.With
+	leftStatement, rightStatement := expr.Left, expr.Right
+	for _, statement := range []sqlparser.TableStatement{leftStatement, rightStatement} {
+		switch statement := statement.(type) {
+		case *sqlparser.Select:
+			{
+				if statement.With == nil {
+					statement.With = expr.With
+				}
+			}
+		case *sqlparser.Union:
+			{
+				if statement.With == nil {
+					statement.With = expr.With
+				}
+			}
+		}
+	}
 	left, err := Prepare(query.data, leftStatement, query.options)
 	if err != nil {
 		return err
@@ -292,7 +305,8 @@ func BuildUnion(query *Query, expr *sqlparser.Union) error {
 	slice = append(slice, rightDataArray...)
 	query.from = slice
 	query.selectDefinition = sqlparser.SelectExprs{}
-	query.selectDefinition.Exprs = make([]sqlparser.SelectExpr, 0)
+	query.selectDefinition.Exprs = []sqlparser.SelectExpr{&sqlparser.StarExpr{}}
+	query.distinct = expr.Distinct
 	err = BuildLimit(query, expr.Limit)
 	if err != nil {
 		return err
@@ -1675,6 +1689,9 @@ func ExecHaving(query *Query, current Map, opts ...ExprOption) (bool, error) {
 }
 
 func IsSelectAllAggregate(query *Query) bool {
+	if len(query.selectDefinition.Exprs) == 0 {
+		return false
+	}
 	for _, slct := range query.selectDefinition.Exprs {
 		expr, ok := slct.(*sqlparser.AliasedExpr)
 		if !ok {
